@@ -142,6 +142,7 @@ type clWorld struct {
 	st        *faultStream
 	ep        qnet.EndPoint
 	client    bus.Client
+	clients   []bus.Client // all clients sharing the endpoint (clients[0] == client)
 	sentinel  chan *qnet.Message
 	sentDead  bool
 	calls     []*clCall
@@ -188,6 +189,7 @@ func clReset() string {
 		e.MakeHandler(func(h *qnet.Header) (bool, bool) { return h.Action == clSentinelAction, true }, w.sentinel, nil)
 	})
 	w.client = bus.NewClient(bus.NewContext(w.ep))
+	w.clients = []bus.Client{w.client}
 	clw = w
 	return "ok"
 }
@@ -318,12 +320,24 @@ func execCl(op string) func(a []string) string {
 		switch op {
 		case "reset":
 			return clReset()
+		case "client":
+			// what Cache.Proxy and NewClientObject do: one more client on the same endpoint
+			w.clients = append(w.clients, bus.NewClient(bus.NewContext(w.ep)))
+			return "ok"
+		case "replyid":
+			p := make([]byte, 4)
+			h := qnet.Header{Magic: 0x42dead42, ID: uint32(n(0)), Size: 4, Type: qnet.Reply, Service: 1, Object: 1, Action: 100}
+			return w.feed(wireOf(h, p))
 		case "call":
 			idx := len(w.calls)
+			client := w.client
+			if len(a) > 0 && n(0) < len(w.clients) {
+				client = w.clients[n(0)]
+			}
 			c := &clCall{cancel: make(chan struct{}), done: make(chan string, 1)}
 			w.calls = append(w.calls, c)
 			go func() {
-				p, err := w.client.Call(c.cancel, 1, 1, 100, []byte{byte(idx)})
+				p, err := client.Call(c.cancel, 1, 1, 100, []byte{byte(idx)})
 				c.done <- clClassify(c, idx, p, err)
 			}()
 			return w.waitArrival(c, qnet.Call)
@@ -583,7 +597,7 @@ func clStorm(a []string) string {
 }
 
 func init() {
-	for _, op := range []string{"reset", "call", "wok", "wfail", "cancel", "reply", "event", "eventerr", "rfail", "close", "out", "peek", "sub", "ondisc", "final"} {
+	for _, op := range []string{"client", "replyid", "reset", "call", "wok", "wfail", "cancel", "reply", "event", "eventerr", "rfail", "close", "out", "peek", "sub", "ondisc", "final"} {
 		executors["cl."+op] = execCl(op)
 	}
 	executors["cl.storm"] = func(a []string) string {
